@@ -11,9 +11,9 @@ namespace GrpcModel.Driver.Idle
 open GrpcModel.Driver GrpcModel.Idle
 
 inductive TPc
-  | rIdle | rB0 | rB1 | rB2f | rX0 | rXr1 | rXr2 | rXr3 | rB2s | rIn | rInU | rE0 | rE0U | rE1 | rE2
-  | tIdle | tH0 | tH1 | tH2 | tH3 | tH4 | tT0 | tT1 | tT2 | tT2u | tT3 | tT3u | tR0 | tR1
-  | cIdle | cX0 | cXc1 | cXc2 | cXc3
+  | rIdle | rB0 | rB1 | rB2f | rX0 | rXr1 | rXrcb | rXr2 | rXr3 | rB2s | rIn | rInU | rE0 | rE0U | rE1 | rE2
+  | tIdle | tH0 | tH1 | tH2 | tH3 | tH4 | tT0 | tT1 | tT2 | tT2u | tT3 | tT3cb | tT3u | tR0 | tR1
+  | cIdle | cX0 | cXc1 | cXccb | cXc2 | cXc3
   | kIdle | kK0 | kK1
 deriving DecidableEq, Repr
 
@@ -24,6 +24,8 @@ def TPc.label : TPc → String
   | .rB1 => "OnCallBegin:0" | .rB2f => "OnCallBegin:1" | .rB2s => "OnCallBegin:2"
   | .rX0 | .cX0 => "ExitIdleMode:lock"
   | .rXr2 | .cXc2 => "ExitIdleMode:0"
+  | .rXrcb | .cXccb => "cc.ExitIdleMode"
+  | .tT3cb => "cc.EnterIdleMode"
   | .rE1 => "OnCallEnd:0" | .rE2 => "OnCallEnd:1"
   | .tH1 => "handleIdleTimeout:0" | .tH2 => "handleIdleTimeout:1" | .tH3 => "handleIdleTimeout:2"
   | .tH4 => "handleIdleTimeout:3"
@@ -55,7 +57,8 @@ def tstep (s : St) (p : TPc) : St × TPc × Option Rule :=
   | .rB1 => fire s p [(.beginAddFast, .rB2f), (.beginAddSlow, .rX0)]
   | .rB2f => fire s p [(.beginStoreFast, .rIn)]
   | .rX0 => fire s p [(.exitLockR, .rXr1)]
-  | .rXr1 => fire s p [(.exitCheckClosedR, .rB2s), (.exitCheckNotIdleR, .rB2s), (.exitCheckIdleR, .rXr2)]
+  | .rXr1 => fire s p [(.exitCheckClosedR, .rB2s), (.exitCheckNotIdleR, .rB2s), (.exitCheckIdleR, .rXrcb)]
+  | .rXrcb => fire s p [(.exitCbDoneR, .rXr2)]
   | .rXr2 => fire s p [(.exitAddR, .rXr3)]
   | .rXr3 => fire s p [(.exitResetR, .rB2s)]
   | .rB2s => fire s p [(.beginStoreSlow, .rIn)]
@@ -74,13 +77,15 @@ def tstep (s : St) (p : TPc) : St × TPc × Option Rule :=
   | .tT1 => fire s p [(.tryLock, .tT2)]
   | .tT2 => fire s p [(.tryLoadLost, .tT2u), (.tryLoadOk, .tT3)]
   | .tT2u => fire s p [(.tryUndo2, .tR0)]
-  | .tT3 => fire s p [(.tryActYes, .tT3u), (.tryEnter, .tIdle)]
+  | .tT3 => fire s p [(.tryActYes, .tT3u), (.tryEnter, .tT3cb)]
+  | .tT3cb => fire s p [(.tryEnterDone, .tIdle)]
   | .tT3u => fire s p [(.tryUndo3, .tR0)]
   | .tR0 => fire s p [(.resetLock, .tR1)]
   | .tR1 => fire s p [(.resetDone, .tIdle)]
   -- Connect → ExitIdleMode
   | .cX0 => fire s p [(.connectLock, .cXc1)]
-  | .cXc1 => fire s p [(.exitCheckClosedC, .cIdle), (.exitCheckNotIdleC, .cIdle), (.exitCheckIdleC, .cXc2)]
+  | .cXc1 => fire s p [(.exitCheckClosedC, .cIdle), (.exitCheckNotIdleC, .cIdle), (.exitCheckIdleC, .cXccb)]
+  | .cXccb => fire s p [(.exitCbDoneC, .cXc2)]
   | .cXc2 => fire s p [(.exitAddC, .cXc3)]
   | .cXc3 => fire s p [(.exitResetC, .cIdle)]
   -- Close: the store, then lock/stop timer/unlock (touches nothing modelled, needs the lock free)
@@ -107,7 +112,8 @@ def b2n (b : Bool) : Nat := if b then 1 else 0
 
 def render (d : DSt) (p : TPc) : String :=
   let active := (d.threads.filter fun x => x.2 = .rIn || x.2 = .rInU).length
-  s!"{p.label} cnt={d.s.cnt} act={b2n d.s.act} idle={d.s.idle} closed={b2n d.s.closed} en={d.s.enters} ex={d.s.exits} active={active}"
+  let cb := if d.s.holder = .xrcb ∨ d.s.holder = .xccb then "x" else if d.s.holder = .t3cb then "e" else "-"
+  s!"{p.label} cnt={d.s.cnt} act={b2n d.s.act} idle={d.s.idle} closed={b2n d.s.closed} en={d.s.enters} ex={d.s.exits} active={active} cb={cb}"
 
 /-- field `key=` of an implementation output line -/
 def field (impl key : String) : Option String :=
@@ -123,6 +129,10 @@ def monitor (impl : String) : String :=
   | some idle, some closed, some active, some en, some ex =>
     if idle = "true" ∧ closed = "0" ∧ active > 0 then
       "VIOL channel is idle while an RPC is between OnCallBegin's return and OnCallEnd"
+    else if closed = "0" ∧ active > 0 ∧ field impl "cb" = some "x" then
+      "VIOL an RPC is running (OnCallBegin returned) while the channel is still inside its exit-idle callback"
+    else if closed = "0" ∧ active > 0 ∧ field impl "cb" = some "e" then
+      "VIOL an RPC is running while the channel is inside its enter-idle callback"
     else if ex < en ∨ ex > en + 1 then
       "VIOL enter-idle / exit-idle callbacks do not alternate"
     else "ok"
